@@ -80,6 +80,7 @@ func main() {
 	faults := flag.Bool("faults", false, "download failures on the menu")
 	jumps := flag.Bool("jumps", false, "clock jumps on the menu")
 	small := flag.Bool("small", false, "two-file archive")
+	kinds := flag.Int("faultkinds", 0, "number of failure kinds on the menu (0 = all three)")
 	pre := flag.Int("preempt", 2, "preemption bound")
 	env := flag.Int("env", 1, "environment deviation bound")
 	shard := flag.Int("shard", 0, "")
@@ -122,7 +123,7 @@ func main() {
 		return
 	}
 
-	sc := fetchx.Scenario{N: *n, Sub: *sub, Faults: *faults, Jumps: *jumps, Fn: *entry, Small: *small}
+	sc := fetchx.Scenario{N: *n, Sub: *sub, Faults: *faults, Jumps: *jumps, Fn: *entry, Small: *small, Kinds: *kinds}
 	bounds := map[string]int{"preemptions": *pre, "env_deviations": *env, "threads": *n}
 	res := Result{Scenario: sc, Bounds: bounds, Outcomes: map[string]int64{}}
 	start := time.Now()
